@@ -12,7 +12,8 @@ def main(pid, argv):
     ck = V.Check(pid, argv)
     ck.rule = ("the full product of transports {unix socket, TCP loopback, in-memory pipe, bridge subprocess} x operations {ReadBytes, raw Read, Write} x {cancel, "
                "deadline} x cancellation instants {before the call, while blocked with nothing in flight, while a frame is partially received (in the kernel, or already in the connection's buffer behind a complete frame), after completion with a deadline that then passes}, "
-               "each repeated; observed: error class, latency against a one-sided bound (< 1 s while the peer stays silent for 3 s), goroutines left behind, and a "
+               "each repeated; plus client-level scenarios in which Connection.Send and the receive function it returns get different contexts (the one that is done "
+               "must be the one that counts); observed: error class, latency against a one-sided bound (< 1 s while the peer stays silent for 3 s), goroutines left behind, and a "
                "follow-up operation with a live context that must receive every byte the peer sends afterwards. distinct = distinct scenarios x repetition; "
                "non-trivial = scenario that cancels a blocked operation")
     ck.assumptions = ["promptness in seconds and kernel wake-ups are sampled (the theorem bounds the number of internal steps)",
@@ -31,6 +32,9 @@ def main(pid, argv):
             if inst in ("partial", "buffered") and op != "readbytes":
                 continue
             scen += ["%s %s %s %s" % (t, op, kind, inst)] * reps
+        # client level: Send and the receive function it returns are given different contexts
+        for t, kind, which in itertools.product(["unix", "tcp", "pipe"], ["cancel", "deadline"], ["sendctx", "recvctx"]):
+            scen += ["%s clientrecv %s %s" % (t, kind, which)] * reps
     # run in parallel shards (each scenario blocks ~0.1 s; a stuck one 3 s)
     from concurrent.futures import ThreadPoolExecutor
     jobs = 12
@@ -50,7 +54,8 @@ def main(pid, argv):
     uniq = list(dict.fromkeys(scen))
     # every transport is expected to honour deadlines
     # for the model a frame head that sits in the connection's own buffer is the same situation as one still in the kernel: no delimiter, the helper blocks
-    model = V.run_model("ctx-run", ["1 %s %s" % (s.split()[2], s.split()[3].replace("buffered", "partial")) for s in uniq])
+    inst_of = {"buffered": "partial", "sendctx": "after", "recvctx": "blocked"}
+    model = V.run_model("ctx-run", ["1 %s %s" % ("cancel" if s.split()[3] == "sendctx" else s.split()[2], inst_of.get(s.split()[3], s.split()[3])) for s in uniq])
     nf = 0
     for sc, ml in zip(uniq, model):
         allowed = set(ml.split(","))
@@ -59,7 +64,7 @@ def main(pid, argv):
             t, op, kind, inst = sc.split()
             ck.count("transport:" + t)
             ck.count("instant:" + inst)
-            if inst in ("blocked", "partial", "buffered"):
+            if inst in ("blocked", "partial", "buffered", "recvctx"):
                 ck.distinct.add((sc, rep))
             f = dict(kv.split("=", 1) for kv in il.split() if "=" in kv)
             bad = None
@@ -67,9 +72,9 @@ def main(pid, argv):
                 bad = "scenario failed: " + il[:200]
             elif f["speed"] != "fast":
                 bad = "the operation did not return promptly after its context was done (%s; the peer stayed silent for 3 s)" % f["speed"]
-            elif inst != "after" and f["class"] not in ("ctx", "timeout"):
+            elif inst not in ("after", "sendctx") and f["class"] not in ("ctx", "timeout"):
                 bad = "a cancelled / expired operation reported %s instead of a context or timeout error" % f["class"]
-            elif inst == "after" and f["class"] != "ok":
+            elif inst in ("after", "sendctx") and f["class"] != "ok":
                 bad = "an operation whose context was live until completion reported %s" % f["class"]
             elif f["leak"] != "0":
                 bad = "%s goroutine(s) left behind" % f["leak"]
